@@ -307,6 +307,8 @@ def rule_parity(ctx, db, rid, want_socket):
                 read |= fields_read(db, f, adt)
                 for h in nested:
                     nread[h] |= fields_read(db, f, h)
+            dpa = dir_params(a_rec.get("preds", []))
+            buf_fields = {fl["name"] for _, fl in db.adt_fields(a_rec) if fl["ty"] in dpa}
             for fld in sorted(inp):
                 if (backend, short(adt), fld) in PARITY_EXCEPTIONS:
                     continue
@@ -314,6 +316,14 @@ def rule_parity(ctx, db, rid, want_socket):
                 ctx.ob(rid, "uses-input:%s/%s.%s" % (backend, short(adt), fld), fld in read,
                        "every backend must consume the constructor-supplied field `%s` (an ignored offset / flag / "
                        "length makes this driver differ from the OS call and from the other drivers)" % fld, fns[0] if fns else None)
+                if fld in buf_fields or fld not in read:
+                    continue   # buffers: decided by the direction-typing rule
+                n += 1
+                ctx.ob(rid, "input-reaches-os:%s/%s.%s" % (backend, short(adt), fld),
+                       any(field_reaches_os(db, f, adt, fld) for f in fns),
+                       "the constructor-supplied `%s` must flow into (or decide) an argument of the OS call / SQE / "
+                       "control block of this backend — reading it without passing it on (e.g. a positional op that "
+                       "calls the non-positional syscall) makes this driver differ from the OS" % fld, fns[0] if fns else None)
             for h, hin in nested.items():
                 for fld in sorted(hin):
                     n += 1
@@ -468,3 +478,116 @@ def rule_outputs(ctx, db, rid, want_socket):
                        "(address / control length, flags, accepted descriptor come back from the OS)" % fld,
                        fns[0] if fns else None)
     return n
+
+
+# ---------------------------------------------------------------------------------------------
+# PARITY-strong: a constructor input must *reach the OS* (flow into an argument of a syscall wrapper /
+# SQE builder, or decide a branch that leads to one) in every backend.
+
+OS_SINK = re.compile(r"^(rustix|libc|io_uring|socket2|nix|std::fs|std::net|std::os|std::process|polling)::|"
+                     r"^compio_driver::sys::driver::poll::op::(Decision|WaitArg|OpType)::|"
+                     r"^compio_driver::buffer_pool::BufferPool::|"
+                     r"^core::ops::function::FnOnce::call_once$|^core::mem::manually_drop::ManuallyDrop::<T>::drop$")
+
+
+def _field_sources(f, owner, field):
+    """locals of f that are assigned (a reference to / copy of) owner.field, and call sites that take
+    a place inside owner.field directly as an argument."""
+    srcs = set()
+    direct_calls = []
+    def hit(p):
+        return any(isinstance(e, list) and e[0] == "f" and e[2] == field and e[3] == owner for e in p["p"])
+    for bi, si, s in f.stmts():
+        if "a" not in s:
+            continue
+        for p in rvalue_places(s["r"]):
+            if hit(p):
+                srcs.add(s["a"]["l"])
+    for bb, t in f.calls():
+        for i, a in enumerate(t.get("args", [])):
+            p = op_place(a)
+            if p and hit(p):
+                direct_calls.append((bb, t, i))
+    sw = []
+    for bi, b in enumerate(f.blocks):
+        t = b["t"]
+        if t["k"] == "switch":
+            p = op_place(t["op"])
+            if p and hit(p):
+                sw.append(bi)
+    return srcs, direct_calls, sw
+
+
+def _reaches_os_from(db, f, tainted0, depth, seen):
+    """does a value in `tainted0` (locals of f) flow into an OS sink (or control one)?"""
+    from .util import taint_forward
+    tainted = taint_forward(f, tainted0)
+    has_sink_after = lambda bb: any(call_matches(t2, OS_SINK) for b2, t2 in f.calls() if b2 in f.cfg.reach_from_block(bb))
+    # storing into the op's control block (the msghdr / iovec / aiocb the kernel is pointed at) reaches the OS
+    if f.argc >= 2 and "Control" in f.local_ty(2):
+        for bi, si, s in f.stmts():
+            if "a" in s and s["a"]["l"] == 2 and s["a"]["p"] and any(p["l"] in tainted for p in rvalue_places(s["r"])):
+                return True
+    for bi, b in enumerate(f.blocks):
+        if b["cl"]:
+            continue
+        t = b["t"]
+        if t["k"] == "switch":
+            p = op_place(t["op"])
+            if p and p["l"] in tainted and has_sink_after(bi):
+                return True
+        if t["k"] != "call":
+            continue
+        targs = [i for i, a in enumerate(t.get("args", [])) if (op_place(a) or {}).get("l") in tainted]
+        if not targs:
+            continue
+        if call_matches(t, OS_SINK):
+            return True
+        if depth > 0:
+            for g in db.callee_fns(t, expand_traits=False):
+                if not g.id.startswith("compio_driver::"):
+                    continue
+                key = (g.id, tuple(targs))
+                if key in seen:
+                    continue
+                seen.add(key)
+                if _reaches_os_from(db, g, {i + 1 for i in targs}, depth - 1, seen):
+                    return True
+            # a tainted closure environment: closures built from tainted captures are analysed as bodies below
+    # closures capturing tainted locals
+    for bi, si, s in f.stmts():
+        r = s.get("r", {})
+        if r.get("k") == "agg" and r.get("x") in ("closure", "coroutine") and s["a"]["l"] in tainted:
+            g = db.fns.get(r["def"])
+            if g is not None and (g.id, "env") not in seen:
+                seen.add((g.id, "env"))
+                if _reaches_os_from(db, g, {1}, depth, seen):
+                    return True
+    return False
+
+
+def field_reaches_os(db, fn, owner, field, depth=3):
+    """Does owner.field, read somewhere in fn / its closures / the driver helpers it calls (passing self),
+    flow into an OS call?"""
+    seen = set()
+    for f in reach_fns(db, fn, depth):
+        srcs, dcalls, sw = _field_sources(f, owner, field)
+        if sw and any(call_matches(t2, OS_SINK) for b2, t2 in f.calls()):
+            return True
+        for bb, t, i in dcalls:
+            if call_matches(t, OS_SINK):
+                return True
+            for g in db.callee_fns(t, expand_traits=False):
+                if g.id.startswith("compio_driver::") and _reaches_os_from(db, g, {i + 1}, depth, seen):
+                    return True
+            # the call's result is derived from the field
+            srcs.add(t["dst"]["l"])
+        # helper methods that read the field and return a value derived from / decided by it
+        for bb, t in f.calls():
+            for g in db.callee_fns(t, expand_traits=False):
+                if g is not f and g.id.startswith("compio_driver::") and g.locals and g.locals[0][0] != "()" and \
+                        field in fields_read(db, g, owner, depth=1):
+                    srcs.add(t["dst"]["l"])
+        if srcs and _reaches_os_from(db, f, srcs, depth, seen):
+            return True
+    return False
